@@ -21,7 +21,7 @@ EXHAUSTIVE = {"quick": False, "thorough": True}
 RULE = (
     "geometry configs = {plain, weighted, extruded, porous, extruded-porous} x dim 1..3 x weight kind (float, "
     "ndarray, Image where accepted) x constructor form (dimensions | voxel_size) x data kind (array | Image; scalar, "
-    "vector, series); call sequences over the alphabet {native, coarser, finer, other-coarser} (integer factors 2..4 "
+    "vector, series, vector-valued series); call sequences over the alphabet {native, coarser, finer, other-coarser} (integer factors 2..4 "
     "per axis): quick = all 84 sequences of length <= 3 plus 200 sampled of length 4..5, thorough = all 1364 of "
     "length <= 5, each run on 3 (quick) / 6 (thorough) rotating configs; each sequence runs on one object and is compared call by call with the "
     "stateless model and, for its last call, with a fresh object. Array-weighted geometries outside 2-D only see "
@@ -114,7 +114,7 @@ def make_config(rng, darsia, idx):
     wkind = ["float", "ndarray", "image"][(idx // 30) % 3] if klass != "plain" else "none"
     form = ["dimensions", "voxel_size"][(idx // 7) % 2]
     dkind = ["array", "image"][(idx // 3) % 2]
-    payload = ["scalar", "vector", "series", "scalar"][(idx // 11) % 4]
+    payload = ["scalar", "vector", "series", "series_vector", "scalar"][(idx // 11) % 5]
     base = {1: [12], 2: [4, 6], 3: [2, 4, 2]}[dim]
     shape = [int(b * rng.integers(1, 3)) for b in base]
     h = [float(10 ** rng.uniform(-1.5, 1.5)) for _ in range(dim)]
@@ -181,13 +181,13 @@ def make_data(rng, darsia, spec, desc, letter, cache):
             dshape = tuple(s // ff for s, ff in zip(shape, f))
             if letter == 1 or 1 not in cache or dshape != cache[1][2]:
                 break
-    trailing = {"scalar": (), "vector": (3,), "series": (4,)}[desc["payload"]]
+    trailing = {"scalar": (), "vector": (3,), "series": (4,), "series_vector": (4, 3)}[desc["payload"]]
     arr = rng.standard_normal(dshape + trailing)
     if desc["data_kind"] == "image":
         h = spec["voxel_size"]
         obj = darsia.Image(arr.copy(), space_dim=dim, dimensions=[shape[d] * h[d] for d in range(dim)],
-                           scalar=desc["payload"] == "scalar", series=desc["payload"] == "series",
-                           time=[float(t) for t in range(4)] if desc["payload"] == "series" else None)
+                           scalar=desc["payload"] == "scalar", series=desc["payload"].startswith("series"),
+                           time=[float(t) for t in range(4)] if desc["payload"].startswith("series") else None)
     else:
         obj = arr.copy()
     cache[letter] = (obj, arr, dshape)
@@ -265,7 +265,7 @@ def run_shard(spec_, R):
         if si % 3 == 0:
             ok, g3 = R.guarded("geometry_constructible", ctor)
             if ok and not (array_weight and desc["payload"] != "scalar" and False):
-                x = rng.standard_normal(tuple(spec["shape"]) + {"scalar": (), "vector": (3,), "series": (4,)}[desc["payload"]])
+                x = rng.standard_normal(tuple(spec["shape"]) + {"scalar": (), "vector": (3,), "series": (4,), "series_vector": (4, 3)}[desc["payload"]])
                 y = rng.standard_normal(x.shape)
                 a, b = float(rng.uniform(-2, 2)), float(rng.uniform(-2, 2))
                 key = "C03:array_volume_not_broadcast_over_trailing_axes" if (array_weight and desc["payload"] != "scalar") else None
@@ -277,16 +277,16 @@ def run_shard(spec_, R):
                     rhs = a * np.asarray(vals[1], float) + b * np.asarray(vals[2], float)
                     R.check(bool(np.all(np.abs(lhs - rhs) <= 1e-12 * (abs(a) * mx + abs(b) * my + 1e-300))), "linearity", {**case, "a": a, "b": b}, group=grp)
                 # normalisation (Images, positive data so that the ratio is well conditioned)
-                if desc["payload"] in ("scalar", "series", "vector"):
+                if True:
                     h = spec["voxel_size"]
                     kw = dict(space_dim=dim, dimensions=[spec["shape"][d] * h[d] for d in range(dim)], scalar=desc["payload"] == "scalar",
-                              series=desc["payload"] == "series")
-                    if desc["payload"] == "series":
+                              series=desc["payload"].startswith("series"))
+                    if desc["payload"].startswith("series"):
                         kw["time"] = [0.0, 1.0, 2.0, 3.0]
                     im = darsia.Image(np.abs(x) + 0.5, **kw)
                     kw2 = dict(kw)
                     kw2["dimensions"] = list(kw["dimensions"])
-                    if desc["payload"] == "series":
+                    if desc["payload"].startswith("series"):
                         kw2["time"] = [0.0, 1.0, 2.0, 3.0]
                     ref = darsia.Image(np.abs(y) + 0.5, **kw2)
                     ok, nrm = R.guarded("normalize", lambda: g3.normalize(im, ref), key=lambda e, w: key)
